@@ -21,6 +21,9 @@ fn main() {
     if args[0] == "worker-c17" {
         std::process::exit(props::c17::worker(&args[1..]));
     }
+    if args[0] == "worker-synckill" {
+        std::process::exit(props::synckill::worker(&args[1..]));
+    }
     if args[0] == "worker-c06" {
         std::process::exit(props::c06::worker(&args[1..]));
     }
